@@ -65,6 +65,49 @@ type Spec struct {
 	FuncStubs     []FuncStub          `json:"func_stubs"` // see natives_trust1.go
 	MergeFuncs    []string            `json:"merge_funcs"` // see merge.go
 	Level         string              `json:"level"`
+	// SrcRewrite: call-site stubs. Textual substitutions applied to the *current* repo source of the
+	// listed files, used identically by the interpreter and by native runs (so both sides see the same
+	// stub). Every pattern must occur in the file, otherwise the check is inconclusive (stale stub).
+	SrcRewrite []SrcRewrite `json:"src_rewrite"`
+}
+
+type SrcRewrite struct {
+	File  string      `json:"file"`
+	Subst [][2]string `json:"subst"`
+}
+
+// rewrittenSources returns repo-relative file -> rewritten source for the spec's src_rewrite entries.
+// foldRewrites merges the src_rewrite form into source_rewrite (same semantics, two spellings).
+func (spec *Spec) foldRewrites() {
+	for _, rw := range spec.SrcRewrite {
+		if spec.SourceRewrite == nil {
+			spec.SourceRewrite = map[string][][2]string{}
+		}
+		spec.SourceRewrite[rw.File] = append(spec.SourceRewrite[rw.File], rw.Subst...)
+	}
+	spec.SrcRewrite = nil
+}
+
+func rewrittenSources(spec *Spec) (map[string]string, error) {
+	out := map[string]string{}
+	for _, rw := range spec.SrcRewrite {
+		src, ok := out[rw.File]
+		if !ok {
+			raw, err := os.ReadFile(filepath.Join(repoDir, rw.File))
+			if err != nil {
+				return nil, err
+			}
+			src = string(raw)
+		}
+		for _, s := range rw.Subst {
+			if !strings.Contains(src, s[0]) {
+				return nil, fmt.Errorf("src_rewrite %s: pattern not found (stale stub): %q", rw.File, s[0])
+			}
+			src = strings.ReplaceAll(src, s[0], s[1])
+		}
+		out[rw.File] = src
+	}
+	return out, nil
 }
 
 type KnownFinding struct {
@@ -151,6 +194,7 @@ func cmdReplay(args []string) int {
 	if err := json.Unmarshal(sraw, &spec); err != nil {
 		fatal(2, "bad spec: %v", err)
 	}
+	spec.foldRewrites()
 	res, err := runNative(&spec, []nativeCase{rp.Case})
 	if err != nil {
 		fmt.Printf("INCONCLUSIVE property=%s: native replay failed: %v\n", rp.Property, err)
@@ -295,6 +339,7 @@ func cmdCheck(args []string) int {
 	if err := json.Unmarshal(raw, &spec); err != nil {
 		fatal(2, "bad spec %s: %v", specPath, err)
 	}
+	spec.foldRewrites()
 	ts, ok := spec.Tiers[*tier]
 	if !ok {
 		fatal(2, "spec has no tier %s", *tier)
